@@ -19,7 +19,7 @@ TRUSTED_BASE = [
     'Lean 4.33 kernel; Mathlib v4.33 as a library of proved statements',
     'axioms allowed in any property theorem: propext, Classical.choice, Quot.sound (audited by #print axioms on every run); no native_decide, no bv_decide, no sorry, no axioms of our own',
     'tools/extract_consts.py (constants are re-extracted from /repo/src on every run)',
-    'rs2lean (syn-based translator) + tools/gen_equiv.py: 81 functions of the tower/group/pairing layers are re-translated from /repo/src on every run and proved equal to the model definitions (Sm9/Gen/Equiv.lean)',
+    'rs2lean (syn-based translator) + tools/gen_equiv.py: the functions of the tower/group/pairing layers listed under tie.translated_functions are re-translated from /repo/src on every run and proved equal to the model definitions (Sm9/Gen/Equiv.lean)',
     'tools/fingerprint.py: every other hand-modelled function is tied to the exact token stream it was written from; a changed function breaks the tie',
     'the correspondence check (harness + sm9drv): differential testing of model and spec against the compiled crate in two build profiles, bounded by its generators',
     'modelled, not verified: ark-ff BigInt primitives, byteorder, rand (as a u64 script), rustc integer/overflow/debug_assert/panic semantics, lazy_static, alloc::Vec',
